@@ -282,6 +282,20 @@ Example C14_ex_optimistic_short_tail :
   tail_read_size true 4096 5 = 8 /\ tail_read_size true 4096 69 = 69 /\ tail_read_size true 16 69 = 16.
 Proof. vm_compute. repeat split; reflexivity. Qed.
 
+(* an encrypted footer (trailing magic "PARE") opened without keys is an error
+   also when the header magic does not announce it (a corrupt or truncated file
+   whose data plants such a trailer) and under SkipMagicBytes, where the header
+   is not looked at; with keys the footer decoder decides *)
+Example C14_ex_encrypted_trailer_needs_keys :
+  let img := magic_par1 ++ [9] ++ [1; 2; 3] ++ [3; 0; 0; 0] ++ magic_pare in
+  let enc := magic_pare ++ [9] ++ [1; 2; 3] ++ [3; 0; 0; 0] ++ magic_pare in
+  open_file unit ex_decode false img = OpenErr ONeedDecryption /\
+  open_file unit ex_decode true img = OpenOk tt /\
+  open_file_cfg unit ex_decode true true 4096 false enc = OpenErr ONeedDecryption /\
+  open_file_cfg unit ex_decode true false 4096 false (firstn 9 enc) = OpenErr OBadTailMagic /\
+  open_file_cfg unit ex_decode false true 4096 false enc = OpenErr ONeedDecryption.
+Proof. vm_compute. repeat split; reflexivity. Qed.
+
 Example C14_ex_readat_contract : readerat_ok 10 (4, REOF) /\ readat_wrap 10 (4, REOF) = (4, REOF) /\
                                  readat_wrap 10 (10, REOF) = (10, RNone).
 Proof. repeat split; cbn; try lia; discriminate. Qed.
